@@ -349,6 +349,26 @@ fn c05_post(plan: &mut LPlan, seed: u64) {
         }
         plan.horizon_ms = tb + 6_000;
         plan.actions.sort_by_key(|a| a.t);
+    } else if r.chance(0.6) {
+        // A link is reset (a second REG3 from the receiver) while routed packets sit in its
+        // batch queue: they are discarded, never transmitted, and then NAKed - by the receiver
+        // model, which misses them, and by forged NAKs on any link.
+        let span = seq_span(plan);
+        let tb = plan.horizon_ms.max(4_000);
+        let base = ((plan.client.start_seq as u64 + span) & 0x7FFF_FFFF) as u32;
+        let n = r.range(30, 120) as u32;
+        plan.actions.push(TimedAction { t: tb, kind: Action::Burst { n, pps: *r.pick(&[1000u32, 2000, 4000]), size_lo: 100, size_hi: 400, stride: 1 } });
+        for _ in 0..r.range(1, 3) {
+            let link = r.below(plan.n_links as u64) as usize;
+            plan.actions.push(TimedAction { t: tb + r.range(2, 25), kind: Action::Inject { link, hex: "9202".into(), delay: 0 } });
+        }
+        for _ in 0..r.range(4, 16) {
+            let link = r.below(plan.n_links as u64) as usize;
+            let seq = base.wrapping_add(r.below(n as u64) as u32) & 0x7FFF_FFFF;
+            plan.actions.push(TimedAction { t: tb + r.range(40, 400), kind: Action::Inject { link, hex: hex(&build_nak(&[seq])), delay: 0 } });
+        }
+        plan.horizon_ms = tb + 1_500;
+        plan.actions.sort_by_key(|a| a.t);
     }
 }
 
@@ -493,6 +513,28 @@ fn c09_post(plan: &mut LPlan, seed: u64) {
     let idx = seed % 4096;
     let mut r = crate::prng::Rng::new(seed ^ 0x0909);
     inject_arbitrary(plan, seed, idx, r.range(50, 600));
+    if r.chance(0.4) {
+        // a burst deeper than the loop's per-iteration drain budget (64): 65..200 distinct
+        // datagrams reach the reader tasks at one instant (the loop was busy meanwhile)
+        use crate::lsim::plan::{Action, TimedAction, hex};
+        plan.fine = false;
+        let t = r.range(plan.horizon_ms / 4, plan.horizon_ms.max(4) * 3 / 4);
+        let n = r.range(65, 200);
+        let one_link = r.chance(0.5);
+        let l0 = r.below(plan.n_links as u64) as usize;
+        for k in 0..n {
+            let link = if one_link { l0 } else { r.below(plan.n_links as u64) as usize };
+            // mostly SRT traffic the client must see (control types other than ACK / NAK, data), distinct bodies
+            let ty: u16 = *r.pick(&[0x8000u16, 0x8001, 0x8005, 0x8006, 0x8007, 0x0000, 0x1234, 0x9000, 0x8002]);
+            let mut b = vec![0u8; r.range(16, 64) as usize];
+            r.fill(&mut b);
+            b[0] = (ty >> 8) as u8;
+            b[1] = ty as u8;
+            b[8..16].copy_from_slice(&(0xB0B0_0000_0000_0000u64 | k).to_be_bytes());
+            plan.actions.push(TimedAction { t, kind: Action::Inject { link, hex: hex(&b), delay: 3 } });
+        }
+        plan.actions.sort_by_key(|a| a.t);
+    }
     if r.chance(0.25) {
         // a run in which the client never speaks: nothing may reach the client socket
         plan.actions.retain(|a| {
@@ -1291,7 +1333,7 @@ fn l_checks() -> Vec<Box<dyn Check>> {
             "a datagram is excused only if every delivery attempt for it hit an injected hard error on the client socket",
             "the 3-line instant-forward task is mirrored: what it would send is counted as delivered",
         ],
-        probes: &["c09.relayable_datagram", "c09.internal_datagram", "c09.runt_datagram", "c09.unknown_type_relayed", "c09.no_client_yet", "c09.instant_forward_path", "c09.fast_path_hard_error", "c09.proof_by_earned_ack", "c09.proof_by_keepalive"],
+        probes: &["c09.relayable_datagram", "c09.internal_datagram", "c09.runt_datagram", "c09.unknown_type_relayed", "c09.no_client_yet", "c09.instant_forward_path", "c09.fast_path_hard_error", "c09.proof_by_earned_ack", "c09.proof_by_keepalive", "c09.drain_budget_exhausted"],
     }),
     Box::new(LCheck {
         id: "C14",
